@@ -168,7 +168,7 @@ func TestC11Pairs(t *testing.T) {
 			c.Transfer.Amount = fmt.Sprint(1 + rapid.IntRange(0, 999).Draw(rt, "crossed/amount"))
 			c.Transfer.Actions = nil
 			who, amount := pick(rt, "crossed/user", kit.PlainUsers), "1000000"
-			if crossed == world.Uhuge {
+			if crossed == world.Uhuge || crossed == world.SynthDenom {
 				who = "whale"
 			}
 			c.Deposits = append(c.Deposits, kit.Env{Kind: "deposit", User: who, Denom: crossed, Amount: amount})
